@@ -76,6 +76,15 @@ Fanout == { Lib("Nano", << FanTopC, KidC("kid_a", 1), KidC("kid_b", 2), KidC("ki
 LongP == "cell_with_a_long_hierarchical_name_of_more_than_thirtytwo_characters_"
 LongNames == { Lib("Nano", << KidC(LongP \o "a", 1), KidC(LongP \o "b", 2),
                               Cell(LongP \o "top", << I(LongP \o "a", <<0, 0>>, FALSE, -1), I(LongP \o "b", <<0, 20>>, TRUE, 90) >>, <<>>) >>) }
+\* the far end of the coordinate range (GDSII coordinates are 32-bit): triangles whose hypotenuse passes within one unit of
+\* area of the centre of their bounding box, convex quadrilaterals and rectangles, at 3 * 10^8 and 10^9; the cross products
+\* that decide "the label lies inside" need 64 bits (RawGds.InsideShape switches to WideContains)
+WideX == {300000001, 1000000001}
+Wide == { Lib("Nano", << Cell("w", <<>>, << E(1, "Drawing", "polygon", pts, 0, "vdd") >>) >>) :
+            pts \in UNION { { << <<0, 0>>, <<X, 0>>, <<X, X + 2>> >>, << <<X, X + 2>>, <<0, 0>>, <<X, 0>> >>, << <<0, 0>>, <<X, X + 2>>, <<X, 0>> >>,
+                              << <<-X, -5>>, <<0, -5>>, <<0, X - 3>> >>, << <<0, 0>>, <<X + 2, X>>, <<0, X>> >>,
+                              << <<0, 0>>, <<X, 1>>, <<X + 1, X>>, <<1, X - 1>> >> } : X \in WideX } }
+   \cup { Lib("Nano", << Cell("w", <<>>, << E(2, "Pin", "rect", << <<-X, 3 - X>>, <<X, X>> >>, 0, "big") >>) >>) : X \in WideX }
 \* Random libraries (NDeep of them, TLC's RandomElement, reproducible under -seed): four cells in a random listing order,
 \* each with a random polygon / rectangle / path (disjoint by construction: separate layers or far apart), instances
 \* of the cells below in random orientations (incl. "no angle"), random units
@@ -95,7 +104,7 @@ DeepRaw(i) == LET pm == RandomElement(Perms4)
                   cs == << RandCell("d_top", <<"d_mid", "d_low", "d_mid">>), RandCell("d_mid", <<"d_low", "d_leaf">>), RandCell("d_low", <<"d_leaf">>), RandCell("d_leaf", <<>>) >>
               IN Lib(RandomElement({"Micro", "Nano", "Angstrom"}), [k \in 1..4 |-> cs[pm[k]]])
 DeepLibs == { DeepRaw(i) : i \in 1..NDeep }
-Libs == OneShape \cup UnitsCases \cup Multi \cup Hier \cup Fanout \cup LongNames \cup DeepLibs
+Libs == OneShape \cup UnitsCases \cup Multi \cup Hier \cup Fanout \cup LongNames \cup Wide \cup DeepLibs
 Init == c \in Libs
 Next == UNCHANGED c
 Spec == Init /\ [][Next]_c
@@ -121,6 +130,6 @@ Disjoint == \A ci \in 1..Len(c.cells) : \A i, j \in 1..Len(c.cells[ci].elems) :
               LET a == c.cells[ci].elems[i]  b == c.cells[ci].elems[j] IN
               (i < j /\ a.layer = b.layer) => ~\E q \in BBoxPts(a) : InsideShape(q, a) /\ InsideShape(q, b)
 ShapesSimple == \A ci \in 1..Len(c.cells) : \A ei \in 1..Len(c.cells[ci].elems) :
-                  LET e == c.cells[ci].elems[ei] IN e.k = "polygon" => IsSimple(e.pts)
+                  LET e == c.cells[ci].elems[ei] IN (e.k = "polygon" /\ ~IsWide(e.pts)) => IsSimple(e.pts)     \* the wide ones are triangles and convex quadrilaterals
 Emit == PrintT(<<"CASE", ToJson([lib |-> c])>>)
 =============================================================================
